@@ -62,6 +62,10 @@ func runHashOps(h hash.Hasher, oneShot func([]byte) []byte, ops []string, datas 
 				}
 			case "s":
 				emit(h.SumHash())
+			case "S": // a call whose result nothing specifies (a second finalisation): made, result dropped
+				_ = h.SumHash()
+			case "W":
+				_, _ = h.Write(datas[arg])
 			case "r":
 				h.Reset()
 			case "c":
@@ -109,7 +113,15 @@ func genC13(c *Ctx) {
 	}
 	for _, a := range hashAlgos {
 		emit := func(class string, ops []string) {
-			line := "hash " + a.name + " " + strings.Join(ops, " ")
+			// "S" and "W:" are calls made on a finalised sponge, whose own results nothing specifies: the model is not
+			// told about them; what is specified is that the Reset or ComputeHash that follows starts afresh
+			spec := []string{}
+			for _, o := range ops {
+				if o != "S" && !strings.HasPrefix(o, "W:") {
+					spec = append(spec, o)
+				}
+			}
+			line := "hash " + a.name + " " + strings.Join(spec, " ")
 			c.Case(class+"/"+a.name, strings.TrimSpace(line), runHashOps(a.mk(), a.oneShot, ops, datas))
 		}
 		// every length 0..k*rate: ComputeHash, never-reset Write+SumHash, one-shot helper
@@ -158,12 +170,30 @@ func genC13(c *Ctx) {
 			ops = append(ops, "s")
 			emit("multi-split", ops)
 		}
+		// use of a finalised object: whatever is done to it, Reset and ComputeHash start afresh
+		if a.sponge {
+			d := genData(datas, 5, 11)
+			e := genData(datas, a.rate+3, 12)
+			for _, pre := range [][]string{
+				{"c:" + d, "S"}, {"S", "S"}, {"w:" + d, "s", "S"}, {"w:" + e, "s", "W:" + d, "S"}, {"c:" + e, "S", "S", "S"},
+				{"w:" + d, "s", "W:" + e}, {"S"}, {"c:" + d, "W:" + e, "S"},
+			} {
+				emit("after-finalised", append(append([]string{}, pre...), "r", "w:"+d, "s", "c:"+e, "r", "w:"+e, "w:"+d, "s"))
+				emit("after-finalised", append(append([]string{}, pre...), "c:"+e, "c:"+d, "r", "s"))
+			}
+		}
 		// op interleavings on one object (only sequences the documentation defines)
 		for i := 0; i < nSeq; i++ {
 			ops := []string{}
 			finalised := false // sponge: after SumHash/ComputeHash only Reset or ComputeHash are defined
 			for j := 0; j < 8; j++ {
 				d := genData(datas, []int{0, 1, a.rate - 1, a.rate, a.rate + 1, 3, 200}[c.intn(7)], c.intn(50))
+				if a.sponge && finalised && c.intn(3) == 0 { // unspecified calls in between, results dropped
+					ops = append(ops, "S")
+					if c.intn(2) == 0 {
+						ops = append(ops, "W:"+d, "S")
+					}
+				}
 				switch c.intn(4) {
 				case 0:
 					if a.sponge && finalised {
